@@ -12,7 +12,7 @@ W=$(mktemp -d /tmp/seedchk.XXXXXX); trap 'rm -rf "$W"' EXIT
 export GOPROXY=off GOSUMDB=off GOTOOLCHAIN=local
 rsync -a --exclude .git /repo/ "$W/clean/"; rsync -a --exclude .git /repo/ "$W/mut/"
 (cd "$W/mut" && patch -p1 -s < "$D/patch.diff") || { echo "SEED $(basename $D): patch does not apply to the current tree"; exit 2; }
-demo_dir=$(jq -r .demo_dir "$D/meta.json" | sed 's#^/tmp/wt/[^/]*/##; s#^\./##')
+demo_dir=$(jq -r .demo_dir "$D/meta.json" | sed 's#^/tmp/wt[0-9]*/[^/]*/##; s#^\./##')
 tests=$(grep -ho 'func Test[A-Za-z0-9_]*' "$D"/demo_test.go | sed 's/func //' | paste -sd'|')
 # meta.json may name environment settings the demonstration needs (e.g. "GOARCH=386")
 demo_env=$(jq -r '.demo_env // ""' "$D/meta.json")
